@@ -279,9 +279,10 @@ def get_ast_term(t):
 
     def get_priority_pair(t):
         """Obtain the binding priority of the top-most operation of t."""
-        if (t.is_number() and isinstance(t.dest_number(), int) and t.dest_number() >= 0) or \
+        if t.is_zero() or t.is_one() or \
+           (t.is_comb('of_nat', 1) and t.arg.is_binary() and t.arg.dest_binary() >= 2) or \
            list.is_literal_list(t):
-            return 100, ATOM  # Nat atom case
+            return 100, ATOM  # Numeral (exactly the terms printed as numerals below) or list
         elif t.is_comb():
             op_data = operator.get_info_for_fun(t.head)
             binder_data = operator.get_binder_info_for_fun(t.head)
@@ -302,6 +303,14 @@ def get_ast_term(t):
 
     def get_priority(t):
         return get_priority_pair(t)[0]
+
+    def get_arg_priority(t):
+        """Priority of t as an argument of a binary operator: a unary
+        operator counts with the level at which the parser reads it."""
+        prior, ty = get_priority_pair(t)
+        if ty == UNARY:
+            return operator.get_info_for_fun(t.head).parse_priority
+        return prior
 
     def helper(t, bd_vars):
         """Main recursive function. Here bd_vars is the list of bound
@@ -390,8 +399,8 @@ def get_ast_term(t):
                 # Obtain output for first argument, enclose in parenthesis
                 # if necessary.
                 arg1_ast = helper(arg1, bd_vars)
-                if (op_data.assoc == operator.LEFT and get_priority(arg1) < op_data.priority or
-                    op_data.assoc == operator.RIGHT and get_priority(arg1) <= op_data.priority):
+                if (op_data.assoc == operator.LEFT and get_arg_priority(arg1) < op_data.priority or
+                    op_data.assoc == operator.RIGHT and get_arg_priority(arg1) <= op_data.priority):
                     arg1_ast = Bracket(arg1_ast)
 
                 op_str = op_data.unicode_op if settings.unicode else op_data.ascii_op
@@ -401,8 +410,8 @@ def get_ast_term(t):
                 # Obtain output for second argument, enclose in parenthesis
                 # if necessary.
                 arg2_ast = helper(arg2, bd_vars)
-                if (op_data.assoc == operator.LEFT and get_priority(arg2) <= op_data.priority or
-                    op_data.assoc == operator.RIGHT and get_priority(arg2) < op_data.priority):
+                if (op_data.assoc == operator.LEFT and get_arg_priority(arg2) <= op_data.priority or
+                    op_data.assoc == operator.RIGHT and get_arg_priority(arg2) < op_data.priority):
                     arg2_ast = Bracket(arg2_ast)
 
                 return BinaryOp(arg1_ast, op_ast, arg2_ast, t.get_type())
@@ -415,7 +424,11 @@ def get_ast_term(t):
 
                 arg_ast = helper(t.arg, bd_vars)
                 arg_prior, arg_type = get_priority_pair(t.arg)
-                if arg_prior < op_data.priority or arg_type == FUN_APPL:
+                if arg_type == UNARY:
+                    # Another unary operator: compare the levels at which the parser reads them
+                    if get_arg_priority(t.arg) < op_data.parse_priority:
+                        arg_ast = Bracket(arg_ast)
+                elif arg_prior < op_data.priority or arg_type == FUN_APPL:
                     arg_ast = Bracket(arg_ast)
 
                 return UnaryOp(op_ast, arg_ast, t.get_type())
